@@ -24,13 +24,14 @@ def tla_seq(x):
     return f'"{x}"'
 
 
-def exec_mc(name, scripts, maxc, mins, tolc, tolp, invs, props=(), spec="Spec", fixes=None, tfail=False, reset_first=True):
+def exec_mc(name, scripts, maxc, mins, tolc, tolp, invs, props=(), spec="Spec", fixes=None, tfail=False, reset_first=True,
+            atomic_cb=None, pre=(), ancestor_walk=None):
     fixes = fixes or (VARIANT.get("FixOrphanParent", False), VARIANT.get("FixBteBranch", False), VARIANT.get("FixEmpty", False))
     wd = work_dir(name)
     mod = f"MC_{name}"
     with open(os.path.join(wd, mod + ".tla"), "w") as f:
         f.write(f"---- MODULE {mod} ----\nEXTENDS Executor\n"
-                f"CfDef == [script |-> {tla_seq(scripts)}, maxc |-> {maxc}, mins |-> {mins}, tolc |-> {tolc}, tolp |-> {tolp}, tfail |-> {'TRUE' if tfail else 'FALSE'}]\n"
+                f"CfDef == [script |-> {tla_seq(scripts)}, maxc |-> {maxc}, mins |-> {mins}, tolc |-> {tolc}, tolp |-> {tolp}, tfail |-> {'TRUE' if tfail else 'FALSE'}, pre |-> <<{', '.join(str(x) for x in pre)}>>]\n"
                 f"MCInit == cf = CfDef /\\ Init\n"
                 f"MCSpec == MCInit /\\ [][NextC]_<<vars, cf>>\n"
                 f"MCFairSpec == MCSpec /\\ WF_vars(MainStep)"
@@ -38,20 +39,22 @@ def exec_mc(name, scripts, maxc, mins, tolc, tolp, invs, props=(), spec="Spec", 
                 f"====\n")
     cfg = [f"SPECIFICATION MC{spec}", "CONSTANTS",
            f"  FixOrphanParent = {'TRUE' if fixes[0] else 'FALSE'}", f"  FixBteBranch = {'TRUE' if fixes[1] else 'FALSE'}",
-           f"  FixEmpty = {'TRUE' if fixes[2] else 'FALSE'}", f"  ResetFirst = {'TRUE' if reset_first else 'FALSE'}"]
+           f"  FixEmpty = {'TRUE' if fixes[2] else 'FALSE'}", f"  ResetFirst = {'TRUE' if reset_first else 'FALSE'}",
+           f"  AtomicCallback = {'TRUE' if (VARIANT.get('AtomicCallback', False) if atomic_cb is None else atomic_cb) else 'FALSE'}",
+           f"  FixAncestorWalk = {'TRUE' if (VARIANT.get('FixAncestorWalk', False) if ancestor_walk is None else ancestor_walk) else 'FALSE'}"]
     cfg += [f"INVARIANT {i}" for i in invs] + [f"PROPERTY {p}" for p in props] + ["CHECK_DEADLOCK FALSE"]
     with open(os.path.join(wd, mod + ".cfg"), "w") as f:
         f.write("\n".join(cfg) + "\n")
     return os.path.join(wd, mod + ".tla"), os.path.join(wd, mod + ".cfg")
 
 
-STRICT = {"C09": ["ConcurrencyBound", "ReturnsOnlyWhenDecided", "ItemsFaithful", "ReasonConsistent"],
+STRICT = {"C09": ["ConcurrencyBound", "ReturnsOnlyWhenDecided", "NoSuspendWhenDecided", "ItemsFaithful", "ReasonConsistent"],
           "C10": ["NoDescendantAfterParentDone", "NoKnownOpAfterParentDone"],
           "C07": ["SuspendSound", "SuspendNotWhileResuming", "NoHang"],
           "C06": ["NoHang"]}
 
 
-def executor_sweep(ctx, invs, *, tag, scripts_sets=None, configs=None, liveness=False, budget=None, tfail=False):
+def executor_sweep(ctx, invs, *, tag, scripts_sets=None, configs=None, liveness=False, budget=None, tfail=False, pre=()):
     """TLC over a family of (scripts, max_concurrency, completion config)."""
     scripts_sets = scripts_sets or [
         [["step", "ok"], ["step", "step", "ok"], ["fail"]],
@@ -71,11 +74,11 @@ def executor_sweep(ctx, invs, *, tag, scripts_sets=None, configs=None, liveness=
                 continue
             name = f"{tag}_{si}_{ci}"
             mod, cfg = exec_mc(name, scripts, maxc, mins, tolc, tolp, invs,
-                               props=(["EventuallyReturns"] if liveness else []), spec="FairSpec" if liveness else "Spec", tfail=tfail)
+                               props=(["EventuallyReturns"] if liveness else []), spec="FairSpec" if liveness else "Spec", tfail=tfail, pre=pre)
             res = run_tlc(mod, cfg, name, timeout_s=900)
             require_ok(res, f"Executor.tla {name}")
             ctx.add_tlc(res, f"Executor.tla exhaustive: scripts={scripts} maxc={maxc or None} min={mins or None} "
-                             f"tolc={None if tolc == NONEC else tolc} tolp={None if tolp == NONEP else tolp}" + (" refresh-may-fail" if tfail else ""), exhaustive=True)
+                             f"tolc={None if tolc == NONEC else tolc} tolp={None if tolp == NONEP else tolp}" + (" refresh-may-fail" if tfail else "") + (f" pre-existing-branch-contexts={list(pre)}" if pre else ""), exhaustive=True)
             if not res.ok:
                 ctx.violation(f"model-{res.violated}", f"TLC: {res.violated} violated (scripts={scripts}, cfg={(maxc, mins, tolc, tolp)})",
                               {"kind": "tlc", "trace": [(a.split(' line')[0], s[:900]) for a, s in res.trace[-8:]]})
@@ -163,6 +166,11 @@ CURATED_CONC = {
     "m16_ctx_fails_with_straggler": {"nodes": [{"k": "par", "caught": True, "bad_serdes": True, "cfg": {"min": 1},
                                                 "branches": [[{"k": "step"}], [{"k": "step", "dur": 0.6}, {"k": "step"}, {"k": "step"}]]},
                                                {"k": "step", "dur": 1.5}, {"k": "step"}]},
+    # re-invocation: both branch contexts already exist when the call is decided early in the second invocation
+    "m17_reinvoke_early_completion": {"nodes": [{"k": "par", "cfg": {"min": 1},
+                                                 "branches": [[{"k": "wait", "s": 1}, {"k": "step"}],
+                                                              [{"k": "wait", "s": 1}, {"k": "step", "dur": 0.5}, {"k": "step"}, {"k": "step"}]]},
+                                                {"k": "step", "dur": 1.5}, {"k": "step"}]},
     "m11_tolerance": {"nodes": [{"k": "map", "caught": True, "cfg": {"tolc": 1}, "braise": [0, 2], "branches": [[], [{"k": "step", "dur": 0.3}], [], [{"k": "step"}]]}]},
 }
 
